@@ -428,6 +428,15 @@ def render(ctx: Ctx) -> List[Ob]:
             ok = all(norm(e_["$$v"]) == "self.DEFAULT_RENDER_REPR" and any(p_ and norm(a_) == "repr is None" for a_, p_ in path_conds(ctx, g, n_)) for n_, e_ in ds)
         T(g, f"{g.name}: the default rendering is the node class's DEFAULT_RENDER_REPR and replaces only repr=None", ok,
           "repr='' is a legal (empty) rendering; typed nodes have their own default: list style and connector styles must agree")
+    for g in (fi, rl):
+        bad = []
+        for c in exit_cases(ctx, g, ("yield",)):
+            for a_, p_ in c.conds:
+                t_ = norm(a_)
+                if t_ in ("self._children", "self.children", "self.has_children()", "self.is_leaf()") or t_.startswith("len(self._children)") or t_.startswith("len(self.children)"):
+                    bad.append(("" if p_ else "not ") + t_)
+        T(g, f"{g.name}: a node without children is rendered like any other (no output depends on self having children)", not bad,
+          f"lines are produced only under {bad}: format() of a leaf (add_self) or of an empty tree with a title would print nothing")
     rf = [x for x in ast.walk(rl.node) if isinstance(x, ast.Call) and isinstance(x.func, ast.Attribute) and x.func.attr == "format" and norm(x.func.value) == "repr"]
     anyfmt = [x for x in ast.walk(rl.node) if isinstance(x, ast.Call) and isinstance(x.func, ast.Attribute) and x.func.attr == "format"]
     T(rl, "_render_lines formats only the repr template (the prefix is concatenated, never interpreted)", (len(rf) == 1 and len(anyfmt) == 1) if anyfmt else None,
@@ -611,6 +620,10 @@ def diff(ctx: Ctx) -> List[Ob]:
                     ok = False
             elif tests:
                 ok = False
+            else:
+                others = [norm(e_) for e_, _p in _pc(ctx, cmp_, adds_[0]) if any(isinstance(x, ast.Name) and x.id == c1v for x in ast.walk(e_))]
+                if others:
+                    ok = False  # one-sided children are decided by something else than the first node's own children
     obs.append(ctx.tri("DIFF", ["C11"], cmp_, "children only in the second node are found by data_id against the first node's children", None, ok,
                        "added children are those whose data_id the first side lacks"))
     fc = [c for c in ast.walk(cmp_.node) if isinstance(c, ast.Call) and norm(c.func) == "_find_child"]
